@@ -270,8 +270,10 @@ def oracle(c):
                 "bool": [vals[i][p] for i in incl for p in range(sizes[i]) if mask_of(i, kept)[p]],
                 "npsum": sum(sum(v) for v in chrom), "rt": chrom}
     if op == "binned":
-        if not pts_ok or not pts or any(sizes[i] == 0 for i in incl):
+        if not pts or any(sizes[i] == 0 for i in incl) or any(rank[x[0]] is None or x[1] < 0 for x in pts):
             return SKIP
+        if not pts_ok:
+            return {"err": "raised"}       # a position beyond its chromosome must not be counted for the neighbour
         b = c["bin"]
         d = [[sum(1 for x in pts if x[0] == i and x[1] // b == k) for k in range((sizes[i] + b - 1) // b)] for i in incl]
         return {"dict": d, "get": d}
@@ -427,6 +429,8 @@ def cases(tier, rng):
         spts = sorted(pts)
         yield dict(base, op="trackviews", iv=iv, pts=pts, vals=vals)
         yield dict(base, op="binned", pts=pts, bin=rng.choice([1, 2, 3, 4]), split=rng.randint(0, len(pts)))
+        c0 = rng.choice(incl)
+        yield dict(base, op="binned", pts=pts + [[c0, sizes[c0] + rng.choice([0, 1, 3])]], bin=rng.choice([1, 2, 3]), split=len(pts) + 1)
         yield dict(base, op="maploc", iv=sorted(iv, key=lambda x: rng.random()), pts=spts)
         every = sorted([c, p] for c in incl for p in range(sizes[c]))
         yield dict(base, op="maploc", iv=iv, pts=every)
